@@ -58,8 +58,8 @@ class Impl:
         # the pool lives in a DuckDB table (a VALUES-backed DataFrame costs ~4x more per statement in sqlframe itself)
         raw = self.session._conn._c if isinstance(self.session._conn, Proxy) else self.session._conn
         raw.execute("CREATE OR REPLACE TABLE c05pool (id bigint, a bigint, b bigint, s varchar, t varchar, "
-                    "p boolean, q boolean, l bigint[])")
-        raw.executemany("INSERT INTO c05pool VALUES (?,?,?,?,?,?,?,?)", [list(r) for r in T.ROWS])
+                    "p boolean, q boolean, l bigint[], d double)")
+        raw.executemany("INSERT INTO c05pool VALUES (?,?,?,?,?,?,?,?,?)", [list(r) for r in T.ROWS])
         self.df = self.session.table("c05pool")
         self.plain = duckdb.connect()
         self.n_queries = 0
@@ -473,7 +473,7 @@ def run(ctx: core.Ctx):
             parses.append("UNKNOWN-NODE:" + str(u))
     ctx.log("DuckDB parses done")
     # ---- model
-    out = ctx.cases("c05", HEADER, [T.to_coq(t) for t in trees], per_file=100, result_ty="str", fn="check")
+    out = ctx.cases("c05", HEADER, [T.to_coq(t) for t in trees], per_file=60, result_ty="str", fn="check")
     fields = [o.split(";") if o is not None else None for o in out]
     ctx.log("model evaluated")
     # where() on a subsample of boolean trees (every tree of depth <= 1, the corpus, every 4th other)
@@ -497,9 +497,9 @@ def run(ctx: core.Ctx):
     confirmed = set()       # markers seen deviating on a tree that has exactly that one marker
     devs = []
     for idx, ((src, t), r, ps, f) in enumerate(zip(trees_src, res, parses, fields)):
-        if f is None or len(f) != 7:
+        if f is None or len(f) != 8:
             continue
-        mtext, mparse, intended, flags, mvals, svals, markers = f
+        mtext, mparse, intended, flags, mvals, svals, markers, prim = f
         mvals = svals if mvals == "=" else mvals
         in_class, safe, known, rt = (c == "1" for c in flags)
         markers = [m for m in markers.split("+") if m]
@@ -518,7 +518,10 @@ def run(ctx: core.Ctx):
             stats["nontrivial"] += 1
         if in_class:
             stats["in_class"] += 1
-            if not (safe and known and rt and mparse == intended and mvals == svals) and proved:
+            pr = prim.split("~")
+            mv, sv = mvals.split("~"), svals.split("~")
+            same_on_agree = len(mv) == len(sv) and all(a == b for a, b, f in zip(mv, sv, pr) if f == "-")
+            if not (safe and known and rt and mparse == intended and same_on_agree) and proved:
                 ctx.broken("theorem-vs-evaluation", "tree of the class on which the executable model disagrees with C05_partial: " + T.to_src(t), desc)
         ak = bool(alias_kept(t))   # "x AS z" inside an expression: not in the modelled fragment, judged against the spec only
         stats["outside_model"] = stats.get("outside_model", 0) + ak
@@ -551,18 +554,31 @@ def run(ctx: core.Ctx):
                 devs.append(("T3:impl-vs-model", desc))
             elif regrouped:
                 pass        # the regrouped tree may be ill-typed (implicit casts are not modelled); judged against the spec only
-            elif vals_eq(mvals.split("~"), r["vals"]) is None:
+            elif vals_eq([("#" if "n" in f else m) for m, f in zip(mvals.split("~"), prim.split("~"))], r["vals"]) is None:
+                # rows where a negative substring position falls before the string are skipped: DuckDB 1.2.2 itself answers
+                # differently for constant and for column input there (its ASCII and Unicode paths disagree)
                 stats["impl_eq_model"] += 1
             else:
                 devs.append(("T3:impl-vs-model", desc))
         # -- implementation vs spec (the property)
         bad = None
+        prim_sigs = []
         if "err" in r:
             if any(v != "#" for v in spec):
                 bad = "raises " + r["err"]
         else:
             k = vals_eq(spec, r["vals"])
             if k is not None:
+                diff_rows = [i for i, (m, x) in enumerate(zip(spec, r["vals"])) if m != "#" and not val_eq(m, x)]
+                pr = prim.split("~")
+                if all(pr[i] != "-" for i in diff_rows):       # every differing row is one where the engine's primitive
+                    prim_sigs = []                             # itself differs from Spark's (tree preserved)
+                    if any("c" in pr[i] for i in diff_rows):
+                        prim_sigs.append("C05/cast-fraction-to-integer-rounds")
+                    if any("s" in pr[i] for i in diff_rows):
+                        prim_sigs.append("C05/substr-start-zero")
+                    if any("n" in pr[i] for i in diff_rows):
+                        prim_sigs.append("C05/substr-negative-start-before-string")
                 desc["row_index"] = k
                 bad = f"select: row {T.ROWS[k]} gives {r['vals'][k]}, PySpark gives {spec[k]}"
             elif "where" in r:
@@ -579,7 +595,7 @@ def run(ctx: core.Ctx):
             if regrouped:
                 stats["regrouped_value_equal"] += 1
         else:
-            sigs = signatures(t, markers)
+            sigs = prim_sigs + signatures(t, markers)
             if len(set(sigs)) == 1:
                 confirmed.add(sigs[0])
             devs.append(("DEV", (t, sigs, bad, desc)))
@@ -591,7 +607,7 @@ def run(ctx: core.Ctx):
         if kind == "DEV":
             t, sigs, bad, desc = d
             pick = next((s for s in sigs if s in confirmed), sigs[0] if sigs else "C05/value-differs:" + t[0])
-            if in_theorem_class(desc):
+            if in_theorem_class(desc) and not (sigs and sigs[0] in PRIM_SIGS):
                 pick = "C05/in-class-tree-deviates:" + t[0]
             hist_sig[pick] = hist_sig.get(pick, 0) + 1
             if pick not in first or T.size(t) < T.size(first[pick][0]):
@@ -617,7 +633,7 @@ def run(ctx: core.Ctx):
         if ctx.tier == "quick":
             recs = recs[:400]
         rtrees = [T.from_json(r["tree"]) for r in recs]
-        o2 = ctx.cases("c05o", HEADER, [T.to_coq(t) for t in rtrees], per_file=100, result_ty="str", fn="check")
+        o2 = ctx.cases("c05o", HEADER, [T.to_coq(t) for t in rtrees], per_file=60, result_ty="str", fn="check")
         badrec = []
         for rec, t, o in zip(recs, rtrees, o2):
             if o is None or rec.get("err"):
@@ -696,6 +712,9 @@ def prove_refutations(ctx) -> dict:
             ctx.obligations -= n          # not an obligation of this source tree any more
             ctx.log(f"refutation witness for {sig} no longer holds of the model of this source tree")
     return out
+
+
+PRIM_SIGS = ("C05/cast-fraction-to-integer-rounds", "C05/substr-start-zero", "C05/substr-negative-start-before-string")
 
 
 def in_theorem_class(desc) -> bool:
